@@ -14,8 +14,8 @@ include hc
 theorem ruleStep_typed {wn : WalkFn σ} (hwn : NodeOK cfg cx F wn) (path : Path) (src : Src) (k : String)
     (as : List (String × Val)) (hw : wfVal cx (.node k as) = true) (rule : Rule) (s : σ) (cs : List Chunk) (s' : σ)
     (h : ruleStep cfg wn path src (.node k as) rule s = .ok (cs, s'))
-    (hb : (absRule cx k rule).bad = false) (hn : ∀ p ∈ (absRule cx k rule).need, p ∈ F) :
-    InLang F (absRule cx k rule).abs (syms cfg.hd cs) := by
+    (p : Nat) (hb : (absRule cx k p rule).bad = false) (hn : ∀ q ∈ (absRule cx k p rule).need, q ∈ F) :
+    Ann cfg.hd F (absRule cx k p rule).abs cs := by
   cases rule with
   | layout m =>
     simp only [ruleStep] at h
@@ -24,24 +24,27 @@ theorem ruleStep_typed {wn : WalkFn σ} (hwn : NodeOK cfg cx F wn) (path : Path)
     | none =>
       rw [hl] at h
       simp only [Except.ok.injEq, Prod.mk.injEq] at h
-      rw [← h.1]; exact inLang_nil F rfl
+      rw [← h.1]; exact ann_nil cfg.hd F rfl
     | some hd' =>
       rw [hl] at h
       simp only [Except.ok.injEq, Prod.mk.injEq] at h
       rw [← h.1]
-      simp only [syms, List.map_cons, List.map_nil, symOf, isKind, hc.hdr, Res.ok]
-      exact inLang_single F _
+      simp only [Res.ok]
+      refine ann_sym cfg.hd F (Sym.mo (occOf cx k p) m (cx.hdr.contains k)) ?_
+        ((SymSet.mem_ofList _ _).mpr (by simp)) ((SymSet.mem_ofList _ _).mpr (by simp))
+      simp only [syms, List.map_cons, List.map_nil, symOf, isKind, hc.hdr, erase_mo]
   | struct m =>
     simp only [ruleStep, hc.hooks.struct m] at h
     simp only [Except.ok.injEq, Prod.mk.injEq] at h
-    rw [← h.1]; simp only [absRule, Res.ok]; exact inLang_nil F rfl
+    rw [← h.1]; simp only [absRule, Res.ok]; exact ann_nil cfg.hd F rfl
   | text v pos =>
     simp only [ruleStep] at h
     obtain ⟨c, g1, g2⟩ := except_map_ok h
     simp only [Prod.mk.injEq] at g2
-    rw [← g2.1, emitToken_syms hc pos _ src v c g1]
+    rw [← g2.1]
     simp only [absRule, Res.ok]
-    exact inLang_single F _
+    exact ann_sym cfg.hd F (Sym.t (sig v)) (by rw [emitToken_syms hc pos _ src v c g1, erase_t])
+      ((SymSet.mem_ofList _ _).mpr (by simp)) ((SymSet.mem_ofList _ _).mpr (by simp))
   | attr a pos =>
     simp only [absRule] at hb hn ⊢
     simp only [ruleStep] at h
@@ -80,7 +83,7 @@ theorem ruleStep_typed {wn : WalkFn σ} (hwn : NodeOK cfg cx F wn) (path : Path)
       | none =>
         simp only [absRule, Res.ok] at hb hn ⊢
         simp only [ruleStep, isEmptyVal, if_true, Except.ok.injEq, Prod.mk.injEq] at h
-        rw [← h.1]; exact inLang_nil F rfl
+        rw [← h.1]; exact ann_nil cfg.hd F rfl
   | optional a body =>
     simp only [absRule] at hb hn ⊢
     simp only [ruleStep] at h
@@ -91,8 +94,8 @@ theorem ruleStep_typed {wn : WalkFn σ} (hwn : NodeOK cfg cx F wn) (path : Path)
       simp only at h
       split at h
       · simp only [Except.ok.injEq, Prod.mk.injEq] at h
-        rw [← h.1]; exact inLang_nil F rfl
-      · exact inLang_opt (hwn _ _ k as (some body) _ _ _ hw h hb hn)
+        rw [← h.1]; exact ann_nil cfg.hd F rfl
+      · exact ann_opt (hwn _ _ k as (some body) _ _ _ hw h _ hb hn)
   | joinAttr a sep pos =>
     simp only [absRule] at hb hn ⊢
     simp only [ruleStep] at h
@@ -107,7 +110,7 @@ theorem ruleStep_typed {wn : WalkFn σ} (hwn : NodeOK cfg cx F wn) (path : Path)
       | ok r =>
         obtain ⟨items, s1⟩ := r
         rw [hg] at h
-        exact join_typed hc F hwn path src k as hw pos sep ks hb.1 hb.2
+        exact join_typed hc F hwn path src k as hw pos sep _ ks hb.1 hb.2
           (fun p hp => hn p (Or.inl (Or.inl (Or.inl hp)))) (fun p hp => hn p (Or.inl (Or.inl (Or.inr hp))))
           (fun p hp => hn p (Or.inl (Or.inr hp))) (fun p hp => hn p (Or.inr hp))
           items (getIter_typed hc path k as hw a ks hik s items s1 hg) s1 cs s' h
@@ -138,10 +141,15 @@ theorem ruleStep_typed {wn : WalkFn σ} (hwn : NodeOK cfg cx F wn) (path : Path)
                 simp only at h
                 obtain ⟨c, g1, g2⟩ := except_map_ok h
                 simp only [Prod.mk.injEq] at g2
-                rw [← g2.1, emitToken_syms hc pos _ src _ c g1]
-                rcases sig_strMul_comma i hi with e | e <;> rw [e]
-                · exact inLang_singleOf F (by simp)
-                · exact inLang_singleOf F (by simp)
+                rw [← g2.1]
+                have hs := emitToken_syms hc pos _ src _ c g1
+                rcases sig_strMul_comma i hi with e | e
+                · rw [e] at hs
+                  exact ann_sym cfg.hd F (Sym.t (mkLit ",")) (by rw [hs, erase_t])
+                    ((SymSet.mem_ofList _ _).mpr (by simp)) ((SymSet.mem_ofList _ _).mpr (by simp))
+                · rw [e] at hs
+                  exact ann_sym cfg.hd F (Sym.t .commas) (by rw [hs, erase_t])
+                    ((SymSet.mem_ofList _ _).mpr (by simp)) ((SymSet.mem_ofList _ _).mpr (by simp))
               | none => simp [slotOK] at h1
               | bool b => simp [slotOK] at h1
               | str t => simp [slotOK] at h1
@@ -177,7 +185,7 @@ theorem ruleStep_typed {wn : WalkFn σ} (hwn : NodeOK cfg cx F wn) (path : Path)
         | ok r =>
           obtain ⟨items, s1⟩ := r
           rw [hg] at h
-          exact ejoin_typed hc F hwn path src k as hw pos sep ks e hce hxb heb hsb
+          exact ejoin_typed hc F hwn path src k as hw pos sep _ ks e hce hxb heb hsb
             (fun p hp => hn p (Or.inl (Or.inl (Or.inl (Or.inl hp))))) hen hxn hien _ rfl
             (fun p hp => hn p (Or.inl (Or.inl (Or.inl (Or.inr hp)))))
             (fun p hp => hn p (Or.inl (Or.inl (Or.inr hp))))
@@ -209,8 +217,8 @@ theorem walk_typed {cfg : Cfg σ} {cx : Ctx} (hc : TypedCfg cfg cx) (F : Follow)
     ∀ (fuel : Nat), NodeOK cfg cx F (walkNode cfg fuel) ∧
       (∀ path src k as rule s cs s', wfVal cx (.node k as) = true →
         walkRule cfg fuel path src (.node k as) rule s = .ok (cs, s') →
-        (absRule cx k rule).bad = false → (∀ p ∈ (absRule cx k rule).need, p ∈ F) →
-        InLang F (absRule cx k rule).abs (syms cfg.hd cs)) := by
+        ∀ p, (absRule cx k p rule).bad = false → (∀ q ∈ (absRule cx k p rule).need, q ∈ F) →
+        Ann cfg.hd F (absRule cx k p rule).abs cs) := by
   intro fuel
   induction fuel with
   | zero =>
@@ -224,8 +232,8 @@ theorem walk_typed {cfg : Cfg σ} {cx : Ctx} (hc : TypedCfg cfg cx) (F : Follow)
       cases defn with
       | some d =>
         simp only at h ⊢
-        intro hb hn
-        exact rules_typed F k _ (fun r s cs s' hr => ih.2 _ _ k as r s cs s' hw hr) d s cs s' h hb hn
+        intro p hb hn
+        exact rules_typed F k _ (fun p r s cs s' hr => ih.2 _ _ k as r s cs s' hw hr p) d p s cs s' h hb hn
       | none =>
         simp only at h ⊢
         cases hl : lookupDef cfg.defs k with
@@ -242,18 +250,18 @@ theorem walk_typed {cfg : Cfg σ} {cx : Ctx} (hc : TypedCfg cfg cx) (F : Follow)
           | some a =>
             rw [hce] at hle
             refine ⟨a, rfl, ?_⟩
-            have := rules_typed F k _ (fun r s cs s' hr => ih.2 _ _ k as r s cs s' hw hr) d s cs s' h hb
-              (fun p hp => mem_of_subList hn hp)
-            exact inLang_mono this hle
-    · intro path src k as rule s cs s' hw h hb hn
+            have := rules_typed F k _ (fun p r s cs s' hr => ih.2 _ _ k as r s cs s' hw hr p) d 1 s cs s' h hb
+              (fun q hq => mem_of_subList hn hq)
+            exact ann_mono this hle
+    · intro path src k as rule s cs s' hw h p hb hn
       simp only [walkRule] at h
-      exact ruleStep_typed hc F ih.1 path src k as hw rule s cs s' h hb hn
+      exact ruleStep_typed hc F ih.1 path src k as hw rule s cs s' h p hb hn
 
 /-- the chunk stream of a well-formed tree is a string of its root kind's certificate -/
 theorem walkChunks_typed {cfg : Cfg σ} {cx : Ctx} (hc : TypedCfg cfg cx) (F : Follow) (hcl : closed cx F cfg.defs = true)
     (k : String) (as : List (String × Val)) (hw : wfVal cx (.node k as) = true) (s : σ) (cs : List Chunk) (s' : σ)
     (h : walkChunks cfg (.node k as) s = .ok (cs, s')) :
-    ∃ a, certOf cx k = some a ∧ InLang F a (syms cfg.hd cs) :=
+    ∃ a, certOf cx k = some a ∧ Ann cfg.hd F a cs :=
   (walk_typed hc F hcl _).1 _ _ k as Option.none s cs s' hw h
 
 end CalmVerif.TokenAdj
